@@ -93,6 +93,9 @@ pub struct Knobs {
     pub short_io: bool,
     /// Spurious `Pending` with probability num/64 on server-side reads and writes.
     pub spurious_pending_64: u32,
+    /// Every connection made from now on gets one EINTR-like fault on its server side:
+    /// the read that would start at this many bytes reports `Interrupted` once.
+    pub eintr_read_at: Option<u64>,
 }
 impl Default for Knobs {
     fn default() -> Self {
@@ -101,6 +104,7 @@ impl Default for Knobs {
             max_io: 0,
             short_io: false,
             spurious_pending_64: 0,
+            eintr_read_at: None,
         }
     }
 }
@@ -256,8 +260,9 @@ impl World {
             client_closed: false,
             accepted: false,
             fail_write_at: None,
-            fail_read_at: None,
-            read_fault_transient: false,
+            fail_read_at: self.net.knobs.eintr_read_at.map(|k| (k, ErrorKind::Interrupted)),
+            read_fault_transient: self.net.knobs.eintr_read_at.is_some(),
+            
             write_fault_transient: false,
             write_fault_fired: false,
             s2c_log: Vec::new(),
